@@ -65,9 +65,40 @@ Definition u_roundtrip (a : val) : val :=
   | _ => bad
   end.
 
+(* a GroupKeyEnvelope: [version; flags; l0; l1; l2; rkid; kdf_alg; kdf_params; secret_alg; secret_params; priv; pub; domain; forest; l1_key; l2_key] *)
+Definition env_of_val (v : val) : option envelope :=
+  match v with
+  | VL [VI ver; VI fl; VI l0; VI l1; VI l2; VB rkid; VS kalg; VB kpar; VS salg; VB spar; VI priv; VI pub; VS dom; VS forest; VB k1; VB k2] =>
+    Some {| gke_version := ver; gke_flags := fl; gke_l0 := l0; gke_l1 := l1; gke_l2 := l2; gke_rkid := rkid;
+            gke_kdf_alg := kalg; gke_kdf_params := kpar; gke_secret_alg := salg; gke_secret_params := spar;
+            gke_priv_len := priv; gke_pub_len := pub; gke_domain := dom; gke_forest := forest; gke_l1_key := k1; gke_l2_key := k2 |}
+  | _ => None
+  end.
+(* online shape: protect with the envelope the DC returned, unprotect with the envelope the DC returns to an authorised caller.
+   [protect envelope; unprotect envelope; draws; data; sid; trailing] -> [blob; plaintext] *)
+Definition u_roundtrip_env (a : val) : val :=
+  match a with
+  | VL [pe; ue; VL [VB r1; VB r2; VB r3]; VB data; VS sid; VI trailing] =>
+    match env_of_val pe, env_of_val ue with
+    | Some penv, Some uenv =>
+      match encrypt_blob sym r1 r2 r3 data penv sid with
+      | Raise e => VE e
+      | Ok blob =>
+        let wire := if Z.land trailing 1 =? 0 then Ok blob else (let* b := blob_unpack blob in blob_pack b false) in
+        match wire with
+        | Raise e => VL [VB blob; VE e]
+        | Ok w => VL [VB w; vres VB (let* b := blob_unpack w in decrypt_blob sym b uenv)]
+        end
+      end
+    | _, _ => bad
+    end
+  | _ => bad
+  end.
+
 Open Scope string_scope.
 Definition units : list (string * (val -> val)) :=
-  [ ("e2e.unprotect", u_unprotect); ("e2e.protect", u_protect); ("e2e.roundtrip", u_roundtrip) ].
+  [ ("e2e.unprotect", u_unprotect); ("e2e.protect", u_protect); ("e2e.roundtrip", u_roundtrip);
+    ("e2e.roundtrip_env", u_roundtrip_env) ].
 
 Fixpoint lookup (n : string) (l : list (string * (val -> val))) : option (val -> val) :=
   match l with
